@@ -436,20 +436,22 @@ EXH_POOL = EXH_NAMES + ['W_long_name_20_chars']
 
 def exh_alphabet(level):
     """the operation kinds of the protocol over 3 names, the built-in array and (at most) one user array and two handed-out objects.
-    level 2: everything (length <= 4); level 1: a reduced alphabet (one literal per target, one lookup per collection) for length 5"""
+    level 3: everything (29 operations, length <= 4 in the quick tier); level 2: without the operations that differ from a kept one only in the
+    target or the literal (20; length 5 in the thorough tier); level 1: one literal per target, one lookup per collection (15; MemorySanitizer pass)"""
     A = [dict(op='init', n=0), dict(op='init', n=1)]
-    if level >= 2: A.append(dict(op='init', n=-1))
+    if level >= 3: A.append(dict(op='init', n=-1))
     lits = [0, 1, 2] if level >= 2 else [1, 2]
     A += [dict(op='add', arr='A0', src=EXH_LIT[i]) for i in lits]
-    A += [dict(op='add', arr='B', src=EXH_LIT[i]) for i in (lits if level >= 2 else [2])]
+    A += [dict(op='add', arr='B', src=EXH_LIT[i]) for i in ([0, 1, 2] if level >= 3 else [2])]
     A += [dict(op='add', arr='A0', src='O0')]
-    if level >= 2: A += [dict(op='add', arr='A0', src='N'), dict(op='add', arr='B', src='O0')]
+    if level >= 3: A += [dict(op='add', arr='A0', src='N'), dict(op='add', arr='B', src='O0')]
     A += [dict(op='read', arr='A0', file=EXH_FILES[0], fidx=0)]
-    if level >= 2: A += [dict(op='read', arr='B', file=EXH_FILES[0], fidx=0), dict(op='read', arr='A0', file=EXH_FILES[1], fidx=1), dict(op='read', arr='A0', file=EXH_FILES[2], fidx=2),
-                         dict(op='read', arr='A0', file='NOFILE')]
+    if level >= 2: A += [dict(op='read', arr='A0', file=EXH_FILES[1], fidx=1), dict(op='read', arr='A0', file=EXH_FILES[2], fidx=2)]
+    if level >= 3: A += [dict(op='read', arr='B', file=EXH_FILES[0], fidx=0), dict(op='read', arr='A0', file='NOFILE')]
     A += [dict(op='get', arr='A0', name=n) for n in (EXH_NAMES if level >= 2 else EXH_NAMES[1:])]
-    A += [dict(op='get', arr='B', name=n) for n in (['Si', EXH_NAMES[2]] if level >= 2 else ['Si'])]
-    if level >= 2: A += [dict(op='list', arr='A0'), dict(op='copy', src=EXH_LIT[1])]
+    A += [dict(op='get', arr='B', name=n) for n in (['Si', EXH_NAMES[2]] if level >= 3 else ['Si'])]
+    if level >= 2: A += [dict(op='list', arr='A0')]
+    if level >= 3: A += [dict(op='copy', src=EXH_LIT[1])]
     A += [dict(op='copy', src='O0'), dict(op='free', j=0), dict(op='free', j=1), dict(op='scrib', j=0, w=-1.5), dict(op='afree', i=0)]
     return A
 
@@ -793,9 +795,17 @@ def shrink(env, h, mode, budget=400):
         k = min(k, len(cur.ops) - 1)
     for i, o in enumerate(list(cur.ops)):
         if budget <= 0: break
-        if o['op'] == 'read' and isinstance(o['file'], dict):
+        if o['op'] == 'read' and isinstance(o['file'], dict) and 'raw' in o['file']:
+            f = o['file']; ls = f['raw'].split('\n')
+            for j in range(len(ls) - 1, -1, -1):             # a file the generator does not interpret: drop whole lines
+                if budget <= 0 or len(ls) <= 1: break
+                g = dict(raw='\n'.join(ls[:j] + ls[j + 1:]), why=f.get('why')); ops = list(cur.ops); ops[i] = dict(o, file=g)
+                cand = Hist(ops, cur.pool, cur.kind); budget -= 1
+                w = fails(cand)
+                if w: cur, why, ls, o = cand, w, ls[:j] + ls[j + 1:], ops[i]
+        elif o['op'] == 'read' and isinstance(o['file'], dict):
             f = o['file']
-            for j in range(len(f['entries']) - 1, -1, -1):
+            for j in range(len(f.get('entries', [])) - 1, -1, -1):
                 g = dict(f, entries=f['entries'][:j] + f['entries'][j + 1:]); ops = list(cur.ops); ops[i] = dict(o, file=g)
                 cand = Hist(ops, cur.pool, cur.kind); budget -= 1
                 w = fails(cand)
@@ -809,7 +819,8 @@ def shrink(env, h, mode, budget=400):
     used = set()
     for o in cur.ops:
         if o['op'] == 'get': used.add(o['name'])
-        for c in ([o['src']] if isinstance(o.get('src'), dict) else []) + (o['file']['entries'] if isinstance(o.get('file'), dict) else []): used.add(c.get('fname', c['name'])[:20])
+        for c in ([o['src']] if isinstance(o.get('src'), dict) else []) + (o['file'].get('entries', []) if isinstance(o.get('file'), dict) else []): used.add(c.get('fname', c['name'])[:20])
+        if isinstance(o.get('file'), dict) and 'raw' in o['file']: used.update(file_names(o['file']))
     small = Hist(cur.ops, [n for n in cur.pool if n in used] or cur.pool[:1], cur.kind)
     w = fails(small)
     if w: cur, why = small, w
@@ -1085,7 +1096,7 @@ class C14:
             xd = sc.path('exh'); os.makedirs(xd, exist_ok=True)
             for i, sp in enumerate(EXH_FILES):
                 with open(os.path.join(xd, 'f%d.dat' % i), 'wb') as f: f.write(render_file(sp).encode('latin-1'))
-            plan = [(4, 2)] if tier == 'quick' else [(5, 2)]
+            plan = [(4, 3)] if tier == 'quick' else [(4, 3), (5, 2)]
             for L, level in plan:
                 xs, nalpha = exhaustive_histories(L, level, xd)
                 st2 = {}
@@ -1155,10 +1166,10 @@ class C14:
                    checker_cmd='cd lean-crystals && lake build %s XrlCrystals.Gen.Builtin  (Gen/Builtin.lean and Gen/Facts.lean are regenerated from the working tree first; then `#print axioms` on every theorem of the modules)' % ' '.join(m for m, _ in PROPS),
                    trusted_base=TRUSTED, theorems=[dict(name=th, axioms=axioms.get(th)) for th in theorems + gen_theorems],
                    traces_validated_against_impl=stats.get('histories', 0), evaluations=stats.get('ops', 0), distinct_nontrivial=nontriv,
-                   rule='(a) EXHAUSTIVE: every history of exactly 4 operations (thorough tier: 5) over an alphabet of %d operations - the operation kinds of the protocol over 3 names (a shipped name, a new one, one of 29 characters), '
+                   rule='(a) EXHAUSTIVE: every history of exactly 4 operations (thorough tier: also every history of 5 operations over a 20-operation subset) over an alphabet of %d operations - the operation kinds of the protocol over 3 names (a shipped name, a new one, one of 29 characters), '
                         'the built-in array, one user array (capacities 0, 1, -1), literal / handed-out / NULL sources, a well-formed file (2 entries, one name cut to 20 characters), a file with a good entry followed by a malformed one, '
                         'a 0-byte file, a missing file, two handed-out objects (copy, free, scribble, double free) - in which every operation refers to handles that exist; histories that use a released handle end there '
-                        '(sanitizer abort <=> model ub); shorter legal histories are prefixes.  (b) RANDOM: seeded random operation histories (length 6..200 + release epilogue) over 1-3 user arrays of initial capacity 0..12 (and -1), the built-in array ' % (exh.get('length<=4', exh.get('length<=5', {})).get('alphabet', 0))
+                        '(sanitizer abort <=> model ub); shorter legal histories are prefixes.  (b) RANDOM: seeded random operation histories (length 6..200 + release epilogue) over 1-3 user arrays of initial capacity 0..12 (and -1), the built-in array ' % (exh.get('length<=4', {}).get('alphabet', 0))
                         + '(NULL) incl. a kind that fills it to its capacity, literal crystals (names from a pool of %d incl. prefixes/case/shipped names, cells, 0-8 atoms), '
                         'handed-out copies as sources, generated crystal files (well-formed with wide token syntax: exponent, sign, leading/trailing dot, leading zeros, tabs, octal/hex atomic numbers as %%i reads them, '
                         'CR LF line ends, the optional Biso column, comment lines of 100+ characters, four kinds of file end incl. a final newline after the last atom; 6 kinds of corruption, duplicate names, long names; '
